@@ -845,7 +845,9 @@ func (d *DotGit) ObjectsWithPrefix(prefix []byte) ([]plumbing.Hash, error) {
 				return bytes.Compare(d.objectList[i].Bytes(), limPrefix) >= 0
 			})
 		}
-		return d.objectList[first:lim], nil
+		// Full slice expression: a caller appending to the result must not
+		// overwrite the entries that follow the window in the cached list.
+		return d.objectList[first:lim:lim], nil
 	}
 
 	// This is the slow path.
